@@ -28,6 +28,7 @@ RULE = ('histories = random interleavings (length <= 6) of option updates (tempe
         'arg-max is not alternative 0; distinct = hash of (object kind, sampler, mode, hard, '
         'rounded temperature, alpha).')
 RULE += ('  Round 3: Conv1d MPS models; a noisy (Gumbel, T in [3,20]) training sample followed by disable_sampling=True before summary()/export(); exported input / residual-sum quantizers compared with summary().')
+RULE += ('  Round 5: stand-alone combiners end with a minimum-gap (0.05) assignment at T in {0.05, 1, 5, 10, 20}; summary() must report a unique maximum at the arg-max.')
 ASSUMPTIONS = [
     'the rules are keyed on the sampler that actually ran (observed), not on the configured one',
     'under disable_sampling nothing is sampled: the only claim is that theta is left bit-identical',
@@ -221,6 +222,29 @@ def run_object_history(case, ctx):
     finally:
         _flags['record'] = False
     check_events(ctx, list(_log))
+    if k == 'combiner':
+        # what summary() reports, at the smallest coefficient gap the property covers (0.05) and over
+        # the whole temperature range: the reported maximum is unique and sits at the arg-max
+        n = q.alpha.numel()
+        vals = [rng.uniform(-1.0, 0.40) for _ in range(n)]
+        w, second = rng.sample(range(n), 2)
+        vals[w], vals[second] = 0.50, 0.45
+        with torch.no_grad():
+            q.alpha.data.copy_(torch.tensor(vals))
+        q.softmax_temperature = rng.choice([0.05, 1.0, 5.0, 10.0, 20.0])
+        q.eval()
+        with torch.no_grad():
+            fwd()
+        rep = q.summary()['supernet_branches']
+        got = [rep[f'branch_{i}']['alpha'] for i in range(n)]
+        ctx.mon('c10.summary_export')
+        leaders = [i for i, v in enumerate(got) if v == max(got)]
+        if leaders != [w]:
+            ctx.violation('summary-vs-rselect', {'sig': 'combiner-summary', 'reported': got,
+                                                 'reported_leaders': leaders, 'r_select': w,
+                                                 'alpha': vals,
+                                                 'temperature': q.softmax_temperature})
+        ctx.cls('combiner-summary-min-gap')
     if case['seed'] % 40 == 0 and _log:
         ev = _log[-1]
         ctx.sample({'object': k, 'history': hist, 'last_event': {
